@@ -71,7 +71,7 @@ P = D.DesignProperty(
     rule=("case = generated design spec in the reference domain whose complete draw tree has at most max_leaves leaves; ALL sequences of "
           "randrange outcomes of one candidate are enumerated with exact probabilities; non-trivial = at least 2 valid sequences and "
           "(rejection occurs or a derived factor / constraint / weight is present); distinct = distinct spec JSON"),
-    cfg_quick=CFG, n_quick=250, n_thorough=2500, case_limit=(30, 240),
+    cfg_quick=CFG, n_quick=250, n_thorough=1500, case_limit=(30, 240),
     limits={"max_T": {"quick": 8, "thorough": 10}, "max_seqs": {"quick": 600, "thorough": 4000}, "max_leaves": {"quick": 5000, "thorough": 40000}},
     assumptions=["random.randrange itself is uniform (the tree weights every outcome of randrange(n) with 1/n)",
                  "vp/ref.py implements the documented semantics"])
